@@ -538,4 +538,177 @@ example : dispatch (inheritedMethods (chainDecls [("Animal", ["speak", "name"]),
 example : dispatch (inheritedMethods (chainDecls [("Animal", ["speak", "name"]), ("Dog", ["speak"])] none) 2 "Dog") "name"
     = some "Animal" := by decide
 
+/-! ### Leaf orderings are strict total orders consistent with equality -/
+
+/-- Leaf ordering agrees with equality: two ints compare equal exactly when they are the same int. -/
+theorem cmpInt_eq_iff (a b : Int) : cmpInt a b = .eq ↔ a = b := by
+  unfold cmpInt
+  by_cases h1 : a < b <;> by_cases h2 : b < a <;> simp [h1, h2] <;> omega
+
+/-- `<` on ints is transitive under the derived ordering. -/
+theorem cmpInt_lt_trans (a b c : Int) (h1 : cmpInt a b = .lt) (h2 : cmpInt b c = .lt) : cmpInt a c = .lt := by
+  unfold cmpInt at *
+  by_cases x : a < b <;> by_cases y : b < c <;> simp [x, y] at h1 h2
+  · have : a < c := by omega
+    simp [this]
+  · split at h2 <;> simp at h2
+  · split at h1 <;> simp at h1
+  · split at h1 <;> simp at h1
+
+/-- Strings compare equal exactly when they are the same code point sequence. -/
+theorem cmpStr_eq_iff (a b : List Char) : cmpStr a b = .eq ↔ a = b := by
+  induction a generalizing b with
+  | nil => cases b <;> simp [cmpStr]
+  | cons x xs ih =>
+    cases b with
+    | nil => simp [cmpStr]
+    | cons y ys =>
+      simp only [cmpStr]
+      by_cases h1 : x.toNat < y.toNat
+      · have : x ≠ y := by intro e; subst e; omega
+        simp [h1, this]
+      · by_cases h2 : x.toNat > y.toNat
+        · have : x ≠ y := by intro e; subst e; omega
+          simp [h1, h2, this]
+        · have hn : x.toNat = y.toNat := by omega
+          have hxy : x = y := Char.toNat_inj.mp hn
+          subst hxy
+          simp [ih ys]
+
+/-- `<` on strings is transitive (lexicographic by code point). -/
+theorem cmpStr_lt_trans (a b c : List Char) (h1 : cmpStr a b = .lt) (h2 : cmpStr b c = .lt) : cmpStr a c = .lt := by
+  induction a generalizing b c with
+  | nil =>
+    cases b with
+    | nil => simp [cmpStr] at h1
+    | cons y ys => cases c with
+      | nil => simp [cmpStr] at h2
+      | cons z zs => simp [cmpStr]
+  | cons x xs ih =>
+    cases b with
+    | nil => simp [cmpStr] at h1
+    | cons y ys =>
+      cases c with
+      | nil => simp [cmpStr] at h2
+      | cons z zs =>
+        simp only [cmpStr] at h1 h2 ⊢
+        by_cases p1 : x.toNat < y.toNat
+        · by_cases p2 : y.toNat < z.toNat
+          · have : x.toNat < z.toNat := by omega
+            simp [this]
+          · simp only [p2, if_false] at h2
+            by_cases p3 : y.toNat > z.toNat
+            · simp [p3] at h2
+            · have : x.toNat < z.toNat := by omega
+              simp [this]
+        · simp only [p1, if_false] at h1
+          by_cases p4 : x.toNat > y.toNat
+          · simp [p4] at h1
+          · simp only [p4, if_false] at h1
+            by_cases p2 : y.toNat < z.toNat
+            · have : x.toNat < z.toNat := by omega
+              simp [this]
+            · simp only [p2, if_false] at h2
+              by_cases p3 : y.toNat > z.toNat
+              · simp [p3] at h2
+              · simp only [p3, if_false] at h2
+                have q1 : ¬ x.toNat < z.toNat := by omega
+                have q2 : ¬ x.toNat > z.toNat := by omega
+                simp only [q1, q2, if_false]
+                exact ih ys zs h1 h2
+
+/-! ### Derived `Ord` is consistent with derived `Eq` -/
+
+mutual
+  /-- Field types for which `@derive(Ord)` compiles: no float and no dict anywhere inside. -/
+  def ordTy : Ty → Bool
+    | .int => true
+    | .bool => true
+    | .str => true
+    | .float => false
+    | .option t => ordTy t
+    | .list t => ordTy t
+    | .dict _ => false
+    | .struct fts => ordFieldTys fts
+  def ordFieldTys : List (List Char × Ty) → Bool
+    | [] => true
+    | (_, t) :: r => ordTy t && ordFieldTys r
+end
+
+mutual
+  /-- Derived `Ord` is consistent with derived `Eq` at every depth: two values of one orderable type that compare
+  `Equal` are the same value (so sorting and `BTreeMap` keys never conflate distinct values). -/
+  theorem cmpV_eq_imp_eq (a b : Val) (t : Ty) (ha : hasTy a t = true) (hb : hasTy b t = true) (ho : ordTy t = true)
+      (h : cmpV a b = .eq) : a = b := by
+    match a, t with
+    | .int x, .int => cases b <;> simp [hasTy] at hb; simp [cmpV] at h; rw [(cmpInt_eq_iff _ _).mp h]
+    | .bool x, .bool =>
+      cases b <;> simp [hasTy] at hb
+      rename_i y
+      simp only [cmpV] at h
+      have := (cmpInt_eq_iff _ _).mp h
+      cases x <;> cases y <;> simp at this ⊢
+    | .str x, .str => cases b <;> simp [hasTy] at hb; simp [cmpV] at h; rw [(cmpStr_eq_iff _ _).mp h]
+    | .float _, .float => simp [ordTy] at ho
+    | .none_, .option u => cases b <;> simp [hasTy] at hb <;> simp [cmpV] at h ⊢
+    | .some_ x, .option u =>
+      cases b <;> simp [hasTy] at hb <;> simp [cmpV] at h
+      rename_i y
+      simp only [hasTy] at ha; simp only [ordTy] at ho
+      rw [cmpV_eq_imp_eq x y u ha hb ho h]
+    | .list xs, .list u =>
+      cases b <;> simp [hasTy] at hb
+      rename_i ys
+      simp only [hasTy] at ha; simp only [ordTy] at ho; simp only [cmpV] at h
+      rw [cmpList_eq_imp_eq xs ys u ha hb ho h]
+    | .dict _, .dict u => simp [ordTy] at ho
+    | .struct xs, .struct fts =>
+      cases b <;> simp [hasTy] at hb
+      rename_i ys
+      simp only [hasTy] at ha; simp only [ordTy] at ho; simp only [cmpV] at h
+      rw [cmpFields_eq_imp_eq xs ys fts ha hb ho h]
+    | .int _, .bool | .int _, .str | .int _, .float | .int _, .option _ | .int _, .list _ | .int _, .dict _ | .int _, .struct _ => simp [hasTy] at ha
+    | .bool _, .int | .bool _, .str | .bool _, .float | .bool _, .option _ | .bool _, .list _ | .bool _, .dict _ | .bool _, .struct _ => simp [hasTy] at ha
+    | .str _, .int | .str _, .bool | .str _, .float | .str _, .option _ | .str _, .list _ | .str _, .dict _ | .str _, .struct _ => simp [hasTy] at ha
+    | .float _, .int | .float _, .bool | .float _, .str | .float _, .option _ | .float _, .list _ | .float _, .dict _ | .float _, .struct _ => simp [hasTy] at ha
+    | .none_, .int | .none_, .bool | .none_, .str | .none_, .float | .none_, .list _ | .none_, .dict _ | .none_, .struct _ => simp [hasTy] at ha
+    | .some_ _, .int | .some_ _, .bool | .some_ _, .str | .some_ _, .float | .some_ _, .list _ | .some_ _, .dict _ | .some_ _, .struct _ => simp [hasTy] at ha
+    | .list _, .int | .list _, .bool | .list _, .str | .list _, .float | .list _, .option _ | .list _, .dict _ | .list _, .struct _ => simp [hasTy] at ha
+    | .dict _, .int | .dict _, .bool | .dict _, .str | .dict _, .float | .dict _, .option _ | .dict _, .list _ | .dict _, .struct _ => simp [hasTy] at ha
+    | .struct _, .int | .struct _, .bool | .struct _, .str | .struct _, .float | .struct _, .option _ | .struct _, .list _ | .struct _, .dict _ => simp [hasTy] at ha
+  theorem cmpList_eq_imp_eq (a b : List Val) (t : Ty) (ha : allHaveTy a t = true) (hb : allHaveTy b t = true)
+      (ho : ordTy t = true) (h : cmpList a b = .eq) : a = b := by
+    match a, b with
+    | [], [] => rfl
+    | [], _ :: _ => simp [cmpList] at h
+    | _ :: _, [] => simp [cmpList] at h
+    | x :: xs, y :: ys =>
+      simp only [allHaveTy, Bool.and_eq_true] at ha hb
+      simp only [cmpList] at h
+      cases hc : cmpV x y <;> simp [hc] at h
+      rw [cmpV_eq_imp_eq x y t ha.1 hb.1 ho hc, cmpList_eq_imp_eq xs ys t ha.2 hb.2 ho h]
+  theorem cmpFields_eq_imp_eq (a b : List (List Char × Val)) (fts : List (List Char × Ty))
+      (ha : fieldsHaveTy a fts = true) (hb : fieldsHaveTy b fts = true)
+      (ho : ordFieldTys fts = true) (h : cmpFields a b = .eq) : a = b := by
+    match a, b, fts with
+    | [], [], _ => rfl
+    | [], _ :: _, [] => simp [fieldsHaveTy] at hb
+    | [], _ :: _, _ :: _ => simp [fieldsHaveTy] at ha
+    | _ :: _, [], [] => simp [fieldsHaveTy] at ha
+    | _ :: _, [], _ :: _ => simp [fieldsHaveTy] at hb
+    | _ :: _, _ :: _, [] => simp [fieldsHaveTy] at ha
+    | (k, x) :: xs, (l, y) :: ys, (g, t) :: r =>
+      simp only [fieldsHaveTy, Bool.and_eq_true, beq_iff_eq] at ha hb
+      simp only [ordFieldTys, Bool.and_eq_true] at ho
+      simp only [cmpFields] at h
+      cases hc : cmpV x y <;> simp [hc] at h
+      rw [cmpV_eq_imp_eq x y t ha.1.2 hb.1.2 ho.1 hc, cmpFields_eq_imp_eq xs ys r ha.2 hb.2 ho.2 h, ha.1.1, hb.1.1]
+end
+
+/-- Non-vacuity: a nested orderable value meets the hypotheses. -/
+example : hasTy (.struct [(['a'], .int 1), (['o'], .some_ (.str ['x'])), (['l'], .list [.bool true])])
+    (.struct [(['a'], .int), (['o'], .option .str), (['l'], .list .bool)]) = true
+  ∧ ordTy (.struct [(['a'], .int), (['o'], .option .str), (['l'], .list .bool)]) = true := by decide
+
+
 end Incan.Derive
